@@ -3,9 +3,11 @@
     leaves it points to, is at least the id of the pointer that led there (ids are u64).  Every valid
     archive satisfies it (a leaf pointer carries its leaf's first id and ids ascend); it is what makes
     skipping "leaves that start after the range" sound.  No other validity is assumed: duplicated
-    ids, overlapping runs, back-referencing offsets are all covered. *)
+    ids, overlapping runs, back-referencing offsets are all covered.
+    [C11_partial_open_valid] discharges the hypothesis for every spec-valid archive ([SpecLookup.wf_dir], the
+    validity C03 quantifies over; by C02 every archive this library writes is one). *)
 Require Import PM.Base PM.Oracles PM.Params PM.Header PM.Directory PM.Stream PM.TileManager PM.TileManagerProofs
-               PM.DirReader PM.LookupProofs PM.FilterProofs PM.Archive PM.OpenFilterProofs.
+               PM.DirReader PM.LookupProofs PM.FilterProofs PM.Archive PM.OpenFilterProofs PM.SpecLookup PM.ValidTreeProofs.
 Open Scope N_scope.
 
 (** for every combination of inclusive / exclusive / open bounds (incl. empty and inverted ranges and
@@ -19,6 +21,15 @@ Theorem C11_partial_open : forall cx img r pf h rest,
   exists pp, from_reader cx img r = Ok pp /\ settings_eq pp pf /\
     forall id, get_tile (p_tm pp) id = if in_range r id then get_tile (p_tm pf) id else Ok None.
 Proof. exact from_reader_filter. Qed.
+
+(** ... in particular for every spec-valid archive *)
+Theorem C11_partial_open_valid : forall cx img r pf h rest,
+  decode_header img = Ok (h, rest) ->
+  wf_dir cx (h_icomp h) img (h_leaf_off h) 4 (h_root_off h) (h_root_len h) 0 two64 ->
+  from_reader cx img full_range = Ok pf ->
+  exists pp, from_reader cx img r = Ok pp /\ settings_eq pp pf /\
+    forall id, get_tile (p_tm pp) id = if in_range r id then get_tile (p_tm pf) id else Ok None.
+Proof. intros cx img r pf h rest Hd. exact (partial_open_valid cx img r pf h rest Hd eq_refl). Qed.
 
 (** the same for util::read_directories on its own *)
 Theorem C11_read_directories : forall cx c img ro rl lo r tf,
